@@ -63,9 +63,9 @@ func init() {
 		Doc:      "each loader dispatched by loadViewFromFile records what it detects in the FileInfo it was given: detected encoding → Encoding, reader.DetectedLineBreak → LineBreak, reader.EnclosedAll → EncloseAll, JSON escape type → JsonEscape and UTF8 → Encoding for the JSON loaders (one obligation per detection source the loader creates)",
 		Controls: []string{"CtlLoaderDropsLineBreak", "CtlLoaderHelperDropsEncoding"},
 		Run:      ruleFmt3})
-	Register(&Rule{ID: "R-FMT-4", Props: []string{"C02"}, Floor: 1,
-		Doc:      "in Transaction.Commit and the lib/query helpers it calls before the swap (EncodeView and FileInfo.ExportOptions excluded) none of the 10 dialect fields of the *session* options tx.Flags.ExportOptions is read: what is appended to a table file must come from the file's own dialect",
-		Controls: []string{"CtlCommitReadsSessionLineBreak"},
+	Register(&Rule{ID: "R-FMT-4", Props: []string{"C02"}, Floor: 2,
+		Doc:      "in Transaction.Commit and the lib/query helpers of the commit path (those that reach an os.File write and are handed a file / writer / handler / FileInfo / view; EncodeView and FileInfo.ExportOptions excluded) (i) none of the 10 dialect fields of the session options tx.Flags.ExportOptions is read, also not through a local copy of the flags, and (ii) every line break written directly into a table file (os.File.Write / WriteString / io.Writer.Write whose bytes come from a LineBreak.Value() or a CR/LF constant, followed through conversions, locals, phis and helper parameters) is made from the LineBreak of the FileInfo being written or of its own ExportOptions — a session-flag or constant origin is reported as such",
+		Controls: []string{"CtlCommitReadsSessionLineBreak", "CtlCommitHoistedSessionLineBreak"},
 		Run:      ruleFmt4})
 	Register(&Rule{ID: "R-FMT-5", Props: []string{"C02"}, Floor: 20,
 		Doc:      "in the lib/query functions reachable from EncodeView every error returned by a go-text/bufio writer or encoder (NewWriter, Write, WriteString, Flush, Encode) is either returned or tested with `!= nil` on an edge from which every return yields a non-nil error",
@@ -653,14 +653,7 @@ func fxTextConst(c *Ctx, name string) *types.Const {
 // fxSessionOptionField: v addresses/extracts a field of Flags.ExportOptions;
 // returns the field name.
 func fxSessionOptionField(in ssa.Instruction) string {
-	isSession := func(x ssa.Value) bool {
-		// x is &flags.ExportOptions, or a load of it
-		if u, ok := x.(*ssa.UnOp); ok && u.Op == token.MUL {
-			x = u.X
-		}
-		fa, ok := x.(*ssa.FieldAddr)
-		return ok && core.FieldOwner(fa) == "lib/option.Flags.ExportOptions"
-	}
+	isSession := func(x ssa.Value) bool { return fxIsSessionOptions(x, 0) }
 	switch x := in.(type) {
 	case *ssa.FieldAddr:
 		if isSession(x.X) {
@@ -672,6 +665,205 @@ func fxSessionOptionField(in ssa.Instruction) string {
 		}
 	}
 	return ""
+}
+
+// fxIsSessionOptions: x is &flags.ExportOptions, a load of it, or a local
+// variable that only ever holds a copy of it (`exportOptions := tx.Flags.ExportOptions`).
+func fxIsSessionOptions(x ssa.Value, depth int) bool {
+	if depth > 3 {
+		return false
+	}
+	if u, ok := x.(*ssa.UnOp); ok && u.Op == token.MUL {
+		x = u.X
+	}
+	switch a := x.(type) {
+	case *ssa.FieldAddr:
+		return core.FieldOwner(a) == "lib/option.Flags.ExportOptions"
+	case *ssa.Alloc:
+		if core.NamedOf(a.Type()) != "lib/option.ExportOptions" || a.Referrers() == nil {
+			return false
+		}
+		n := 0
+		for _, r := range *a.Referrers() {
+			if st, ok := r.(*ssa.Store); ok && st.Addr == a {
+				if !fxIsSessionOptions(st.Val, depth+1) {
+					return false
+				}
+				n++
+			}
+		}
+		return n > 0
+	}
+	return false
+}
+
+// what the bytes of a trailing write are
+const (
+	fxLbFile    = iota // LineBreak of a FileInfo (x = the *FileInfo)
+	fxLbFileOps        // LineBreak of the options returned by (*FileInfo).ExportOptions
+	fxLbSession        // LineBreak of the session flags
+	fxLbConst          // a constant line break
+	fxLbParam          // parameter #idx of the enclosing helper
+	fxLbOther          // anything else
+)
+
+type fxLbLeaf struct {
+	kind int
+	x    ssa.Value
+	idx  int
+	what string
+}
+
+// fxLineBreakOrigin follows the bytes handed to a file write back through
+// conversions, locals and phis to the LineBreak they were made from. isLB tells
+// whether a LineBreak.Value() call (or a constant made of CR/LF) was met at all.
+func fxLineBreakOrigin(c *Ctx, v ssa.Value) (leaves []fxLbLeaf, isLB bool) {
+	seen := map[ssa.Value]bool{}
+	var lbOf func(v ssa.Value)
+	lbOf = func(v ssa.Value) { // v has type text.LineBreak
+		if seen[v] {
+			return
+		}
+		seen[v] = true
+		switch x := v.(type) {
+		case *ssa.Phi:
+			for _, e := range x.Edges {
+				lbOf(e)
+			}
+			return
+		case *ssa.Parameter:
+			for i, p := range x.Parent().Params {
+				if p == x {
+					leaves = append(leaves, fxLbLeaf{kind: fxLbParam, idx: i})
+				}
+			}
+			return
+		case *ssa.Field:
+			if core.FieldName(x) == "LineBreak" && fxIsSessionOptions(x.X, 0) {
+				leaves = append(leaves, fxLbLeaf{kind: fxLbSession})
+				return
+			}
+		case *ssa.UnOp:
+			if x.Op != token.MUL {
+				break
+			}
+			switch a := x.X.(type) {
+			case *ssa.FieldAddr:
+				switch core.FieldOwner(a) {
+				case "lib/query.FileInfo.LineBreak":
+					leaves = append(leaves, fxLbLeaf{kind: fxLbFile, x: a.X})
+					return
+				case "lib/option.ExportOptions.LineBreak":
+					if fxIsSessionOptions(a.X, 0) {
+						leaves = append(leaves, fxLbLeaf{kind: fxLbSession})
+						return
+					}
+					// options of the file: a local that holds the result of (*FileInfo).ExportOptions
+					if al, ok := a.X.(*ssa.Alloc); ok {
+						fromFile := false
+						for _, r := range *al.Referrers() {
+							if st, ok := r.(*ssa.Store); ok && st.Addr == al {
+								fromFile = false
+								for _, o := range core.Origins(st.Val, false) {
+									if oc, _ := fxCallOf(o); oc != nil && c.P.CalleeName(oc) == fxExportOptions {
+										fromFile = true
+									}
+								}
+								if !fromFile {
+									break
+								}
+							}
+						}
+						if fromFile {
+							leaves = append(leaves, fxLbLeaf{kind: fxLbFileOps})
+							return
+						}
+					}
+				}
+			case *ssa.Alloc, *ssa.FreeVar:
+				vals, complete := core.StoresTo(a)
+				if complete && len(vals) > 0 {
+					for _, sv := range vals {
+						lbOf(sv)
+					}
+					return
+				}
+			}
+		}
+		leaves = append(leaves, fxLbLeaf{kind: fxLbOther, what: valueLabel(v)})
+	}
+	var walk func(v ssa.Value)
+	walk = func(v ssa.Value) {
+		if seen[v] {
+			return
+		}
+		seen[v] = true
+		switch x := v.(type) {
+		case *ssa.Convert:
+			walk(x.X)
+		case *ssa.ChangeType:
+			walk(x.X)
+		case *ssa.Phi:
+			for _, e := range x.Edges {
+				walk(e)
+			}
+		case *ssa.Const:
+			if str, ok := core.ConstString(x); ok && str != "" && strings.Trim(str, "\r\n") == "" {
+				isLB = true
+				leaves = append(leaves, fxLbLeaf{kind: fxLbConst, what: fmt.Sprintf("%q", str)})
+				return
+			}
+			leaves = append(leaves, fxLbLeaf{kind: fxLbOther, what: valueLabel(v)})
+		case *ssa.Parameter:
+			for i, p := range x.Parent().Params {
+				if p == x {
+					leaves = append(leaves, fxLbLeaf{kind: fxLbParam, idx: i})
+				}
+			}
+		case *ssa.UnOp:
+			if x.Op == token.MUL {
+				switch a := x.X.(type) {
+				case *ssa.Alloc, *ssa.FreeVar:
+					vals, complete := core.StoresTo(a)
+					if complete && len(vals) > 0 {
+						for _, sv := range vals {
+							walk(sv)
+						}
+						return
+					}
+				}
+			}
+			leaves = append(leaves, fxLbLeaf{kind: fxLbOther, what: valueLabel(v)})
+		case *ssa.Call:
+			if f := core.StaticCallee(x); f != nil && f.Name() == "Value" && f.Signature.Recv() != nil && strings.HasSuffix(core.NamedOf(f.Signature.Recv().Type()), "go-text.LineBreak") {
+				isLB = true
+				lbOf(x.Common().Args[0])
+				return
+			}
+			leaves = append(leaves, fxLbLeaf{kind: fxLbOther, what: valueLabel(v)})
+		default:
+			leaves = append(leaves, fxLbLeaf{kind: fxLbOther, what: valueLabel(v)})
+		}
+	}
+	walk(v)
+	return
+}
+
+// fxFileWrite: the call writes bytes/strings directly into a file or writer;
+// returns the receiver and the data argument.
+func fxFileWrite(c *Ctx, call ssa.CallInstruction) (recv, data ssa.Value, ok bool) {
+	com := call.Common()
+	if com.IsInvoke() {
+		if (com.Method.Name() == "Write" || com.Method.Name() == "WriteString") && len(com.Args) == 1 {
+			return com.Value, com.Args[0], true
+		}
+		return nil, nil, false
+	}
+	switch c.P.CalleeName(call) {
+	case "(*os.File).Write", "(*os.File).WriteString":
+		return com.Args[0], com.Args[1], true
+	}
+	return nil, nil, false
 }
 
 func ruleFmt4(c *Ctx) {
@@ -710,6 +902,12 @@ func ruleFmt4(c *Ctx) {
 	for _, f := range fxCtlFuncs(c) {
 		if strings.HasPrefix(f.Name(), "CtlCommit") || strings.HasPrefix(f.Name(), "okCommit") {
 			scope = append(scope, f)
+			for _, call := range core.Calls(f) { // and the control's own helpers
+				if h := core.StaticCallee(call); h != nil && h.Blocks != nil && c.P.IsControl(h) && !seen[h] && fxTakesFile(call) {
+					seen[h] = true
+					scope = append(scope, h)
+				}
+			}
 		}
 	}
 	for _, fn := range scope {
@@ -731,6 +929,145 @@ func ruleFmt4(c *Ctx) {
 			}
 		}
 	}
+	// positive form: every line break written directly into a table file is the
+	// LineBreak of the FileInfo being written
+	inScope := map[*ssa.Function]bool{}
+	for _, fn := range scope {
+		inScope[fn] = true
+	}
+	for _, fn := range scope {
+		n := 0
+		for _, ci := range core.Calls(fn) {
+			recv, data, ok := fxFileWrite(c, ci)
+			if !ok {
+				continue
+			}
+			leaves, isLB := fxLineBreakOrigin(c, data)
+			// a helper that is handed the bytes / the line break: judged at its call sites
+			var resolved []fxLbLeaf
+			for _, l := range leaves {
+				if l.kind != fxLbParam {
+					resolved = append(resolved, l)
+					continue
+				}
+				found := false
+				for caller := range inScope {
+					for _, cc := range core.Calls(caller) {
+						if core.StaticCallee(cc) != fn || l.idx >= len(cc.Common().Args) {
+							continue
+						}
+						a := cc.Common().Args[l.idx]
+						var sub []fxLbLeaf
+						sawLB := false
+						if strings.HasSuffix(core.NamedOf(a.Type()), "go-text.LineBreak") {
+							// wrap: the parameter is the LineBreak itself
+							tmp, _ := fxLineBreakOriginOfLB(c, a)
+							sub, sawLB = tmp, true
+						} else {
+							sub, sawLB = fxLineBreakOrigin(c, a)
+						}
+						if sawLB {
+							isLB = true
+						}
+						for _, sl := range sub {
+							if sl.kind == fxLbParam {
+								sl = fxLbLeaf{kind: fxLbOther, what: "a parameter of " + c.P.Name(caller)}
+							}
+							resolved = append(resolved, sl)
+						}
+						found = true
+					}
+				}
+				if !found {
+					resolved = append(resolved, fxLbLeaf{kind: fxLbOther, what: "a parameter no call in the commit path supplies"})
+				}
+			}
+			if !isLB {
+				continue // not a line break (EncodeView's writers, other payload)
+			}
+			n++
+			c.Sites++
+			key := c.KeyAt(fn, fmt.Sprintf("trailing line break write #%d", n))
+			pos := c.Pos(ci.(ssa.Instruction))
+			bad, und := "", ""
+			for _, l := range resolved {
+				switch l.kind {
+				case fxLbSession:
+					bad = "the line break appended to the table file is made from the SESSION flag tx.Flags.ExportOptions.LineBreak (directly or through a local copy of the flags), not from the LineBreak of the FileInfo being written: a CRLF file committed under the default flags ends in a bare LF"
+				case fxLbConst:
+					bad = "the line break appended to the table file is the constant " + l.what + ", not the LineBreak of the FileInfo being written"
+				case fxLbOther:
+					und = "cannot-analyse: the line break appended to the table file comes from " + l.what + "; the rule cannot follow it to a FileInfo.LineBreak"
+				case fxLbFile:
+					if why := fxOtherFile(c, l.x, recv); why != "" {
+						bad = why
+					}
+				}
+			}
+			switch {
+			case bad != "":
+				c.Bad(key, pos, bad)
+			case und != "":
+				c.Unknown(key, pos, und)
+			default:
+				c.Ok(key, pos, "the bytes are made from the LineBreak of the FileInfo being written (or of its own ExportOptions)")
+			}
+		}
+	}
+}
+
+// fxLineBreakOriginOfLB classifies a value of type text.LineBreak (an argument
+// handed to a helper) by wrapping it as if .Value() had been applied.
+func fxLineBreakOriginOfLB(c *Ctx, lb ssa.Value) ([]fxLbLeaf, bool) {
+	switch x := lb.(type) {
+	case *ssa.UnOp:
+		if fa, ok := x.X.(*ssa.FieldAddr); ok && x.Op == token.MUL {
+			switch core.FieldOwner(fa) {
+			case "lib/query.FileInfo.LineBreak":
+				return []fxLbLeaf{{kind: fxLbFile, x: fa.X}}, true
+			case "lib/option.ExportOptions.LineBreak":
+				if fxIsSessionOptions(fa.X, 0) {
+					return []fxLbLeaf{{kind: fxLbSession}}, true
+				}
+			}
+		}
+	case *ssa.Field:
+		if core.FieldName(x) == "LineBreak" && fxIsSessionOptions(x.X, 0) {
+			return []fxLbLeaf{{kind: fxLbSession}}, true
+		}
+	}
+	return []fxLbLeaf{{kind: fxLbOther, what: valueLabel(lb)}}, true
+}
+
+// fxOtherFile: when both are visible in one function — the file written is the
+// update file of view.FileInfo.Handler and the LineBreak is read from FileInfo F —
+// F must be that view's FileInfo (or the FileInfo whose IdentifiedPath fetched the
+// view). Returns a diagnosis when it is provably another one.
+func fxOtherFile(c *Ctx, F, recv ssa.Value) string {
+	for _, o := range core.Origins(recv, true) {
+		oc, _ := fxCallOf(o)
+		if oc == nil || c.P.CalleeName(oc) != "lib/file.(*Handler).FileForUpdate" {
+			continue
+		}
+		h := fxFieldLoad(oc.Common().Args[0])
+		if h == nil || core.FieldOwner(h) != "lib/query.FileInfo.Handler" {
+			continue
+		}
+		G := h.X // the FileInfo that owns the file
+		if G == F || core.SameCell(G, F) {
+			return ""
+		}
+		if g := fxFieldLoad(G); g != nil && core.FieldOwner(g) == "lib/query.View.FileInfo" {
+			if fxFileInfoOfView(c, F, g.X) {
+				return ""
+			}
+			if _, isParam := F.(*ssa.Parameter); isParam {
+				return ""
+			}
+			return fmt.Sprintf("the line break appended to the file of %s is the LineBreak of another FileInfo (%s)", valueLabel(G), valueLabel(F))
+		}
+	}
+	return ""
 }
 
 // fxTakesFile: the call hands over a file, a writer, a handler, a FileInfo or a
